@@ -29,6 +29,13 @@ def apply(entry, dest):
     occ = entry[5] if len(entry) > 5 else 0
     path = os.path.join(dest, 'pyins', fname)
     s = open(path).read()
+    if isinstance(old, list):          # several (old, new) pairs in one file
+        for o, n in old:
+            if o not in s:
+                raise RuntimeError(f'{mid}: pattern not found in {fname}: {o!r}')
+            s = s.replace(o, n, 1)
+        open(path, 'w').write(s)
+        return
     idx = -1
     start = 0
     for _ in range(occ + 1):
